@@ -33,8 +33,9 @@ package server
 //@   modifies requestURL.Scheme, headers[all], regOpts.Token
 //@   ensures result.1 == nil ==> result.0 != nil && result.0.StatusCode < 400 && result.0.StatusCode != 401
 // the two sentinel returns: os.ErrNotExist (library) and errUnauthorized (package-level errors.New value) are non-nil
-//@   assume-at return #3 : result.1 != nil      -- images.go:720 returns the library sentinel os.ErrNotExist
-//@   assume-at return #8 : errUnauthorized != nil      -- images.go:733, assigned once at package init, never reassigned
+// (return ordinals of this function follow govc's visiting order, see `./check C03 --list`)
+//@   assume-at return #3 : result.1 != nil      -- `return nil, os.ErrNotExist`: the library sentinel is non-nil
+//@   assume-at return #8 : errUnauthorized != nil      -- `return nil, errUnauthorized`: assigned once at package init, never reassigned
 
 // ---- trusted library contracts used by the pull path (only frames: what a call may change in
 // ---- memory the verified functions can see; network/file-system effects are not modelled).
@@ -161,9 +162,6 @@ package server
 //@   assume-at after call LoadOrStore #1 : result.1 ==> tagis(result.0, "*blobDownload")     -- only *blobDownload values are ever stored in blobDownloadManager
 //@   assume-at call Wait #1 : ok ==> download.Digest == opts.digest       -- entries are stored under their own digest
 
-// Wait: b.Digest is written only by the composite literal in downloadBlob. The loop invariant cannot
-// be kept by govc: the call through the func-typed parameter fn forgets the whole heap (no contract
-// key for such a call) - listed as undecided; the slice b.Digest[7:19] itself is discharged from it.
 //@ func (*blobDownload).acquire
 //@   modifies nothing
 // b.CancelFunc is the cancel function of the download's own context (set in run)
@@ -171,6 +169,10 @@ package server
 //@   modifies nothing
 //@ func (*blobDownload).release
 //@   modifies nothing
+// Wait: b.Digest is written only by the composite literal in downloadBlob. The loop invariant cannot
+// be kept by govc and the call fn(...) cannot be framed: a call through the func-typed parameter fn
+// has no contract key and forgets the whole heap - Wait#frame.6 and Wait#loop1.inv1.keep@b5 are listed
+// as undecided; the slice b.Digest[7:19] itself is discharged from the invariant.
 //@ func (*blobDownload).Wait
 //@   requires len(b.Digest) >= 19
 //@   modifies nothing
@@ -236,6 +238,8 @@ package server
 //@   loop 3 invariant ghost_wfresh == 1 ==> has(skipVerify, layers[wk()].Digest) && !skipVerify[layers[wk()].Digest]
 //@   loop 3 invariant ghost_wfresh == 1 && wk() <= rangeindex ==> ghost_wver == 1
 // a digest mismatch removes the blob before the error is returned (return after the verify failure)
+// (selftest/C03/mismatch_keeps_blob.diff expects this clause under the name PullModel#assert.4@return.5:
+//  it is the 4th assert-at/assume-at clause of this contract - keep the order)
 //@   assert-at return #5 : ghost_mm == 1 ==> ghost_rm == 1
 // STORE INVARIANT "a blob under its final name is verified": when PullModel returns - with or without
 // error - a layer that this call put under its final name has been verified or removed again.
